@@ -117,6 +117,19 @@ CHECKS = {
              "(guard VSMALL inside arccos).",
         technique="TLA+ spec Quality.tla: symmetry-group generator + TLC judge of recorded quality values (rank/equality abstraction)",
         ref="DESIGN.md section 4 C14"),
+    "C16": dict(
+        text="Curve.tla enumerates exact lattice polylines with integer segment lengths (uneven spacing), the exact point at "
+             "rational arc lengths and the exact length between them, and TLC checks the specification's own additivity/knot "
+             "identities; under random similarities the implementation's Linear/Spline/Discrete curves (get_point, "
+             "discretize and get_length in either order, additivity, closest parameter vs 400 samples) and curve-snapped "
+             "edges (points on the curve between the vertices' parameters, length) are compared with those exact values; "
+             "circle and line curves are evaluated on Arc.tla's exact circle instances.",
+        note="Spline interiors are constrained only by relations (through defining points, additivity at defining points, "
+             "length >= polyline); analytic lengths to 2e-4 relative (100-point discretisation). The closest-parameter "
+             "clause is an order relation evaluated by the harness. Near misses (<10 %) and acute-corner branch confusion of "
+             "the sampling search are known findings.",
+        technique="TLA+ spec Curve.tla (+Arc.tla): TLC-enumerated exact instances; instance evaluation under similarity conjugation",
+        ref="DESIGN.md section 4 C16"),
 }
 
 def main():
